@@ -54,7 +54,8 @@ def prove(chk, pid):
                     problems.append(f"{n} depends on non-allow-listed axioms {extra}")
     if ok and chk.tier == "thorough":
         # independent re-check of the compiled files and everything they depend on
-        rc2, out2 = C.sh(f"cd {C.COQ} && timeout 1800 coqchk -o -silent -Q . RRSS RRSS.Properties.{pid} 2>&1", timeout=1900)
+        with C.build_lock("coq"):
+            rc2, out2 = C.sh(f"cd {C.COQ} && timeout 1800 coqchk -o -silent -Q . RRSS RRSS.Properties.{pid} 2>&1", timeout=1900)
         m = re.search(r"\* Axioms:(.*?)\n\s*\n\* Constants/Inductives relying on type-in-type:(.*?)\n\s*\n"
                       r"\* Constants/Inductives relying on unsafe \(co\)fixpoints:(.*?)\n\s*\n"
                       r"\* Inductives whose positivity is assumed:(.*?)\n", out2, re.S)
